@@ -271,6 +271,18 @@ def searcher_worker(cfg):
     signal.signal(signal.SIGALRM, speccheck._alarm)
     signal.alarm(40)
     out = {"cfg": cfg, "problems": [], "classes": 0, "cached": 0}
+    # every class database created while this worker runs is audited at the end: also the ones of the searchers that
+    # `expand_verified` sets up internally
+    import comb_spec_searcher.class_db as cdbmod
+
+    created = []
+    orig_init = cdbmod.ClassDB.__init__
+
+    def rec_init(self, *a, **k):
+        orig_init(self, *a, **k)
+        created.append(self)
+
+    cdbmod.ClassDB.__init__ = rec_init
     try:
         specrun.quiet()
         root, pack, db = specrun.build(cfg)
@@ -305,23 +317,43 @@ def searcher_worker(cfg):
         finally:
             random.setstate(st)
             specrun.quiet()
-        cdb = s.classdb
-        n = len(cdb.empty_list)
-        out["classes"] = n
-        for label in range(n):
-            c = cdb.get_class(label)
-            if cdb.get_label(c) != label:
-                out["problems"].append(("label-not-stable", f"class {c!r} stored under {label} is now labelled {cdb.get_label(c)}"))
-            cached = cdb.empty_list[label]
-            if cached is not None:
-                out["cached"] += 1
-                if bool(cached) != bool(c.is_empty()):
-                    out["problems"].append(("cached-emptiness-ne-class", f"label {label} {c!r}: cached {cached}, the class says {c.is_empty()}"))
-        if len(cdb.empty_list) != n:
-            out["problems"].append(("lookup-grows-the-database", f"{n} -> {len(cdb.empty_list)}"))
+        if cfg["seed"] % 2 == 0:
+            # carry on to a specification and expand its verified classes: the library then builds further searchers, each
+            # with a class database of its own
+            st = random.getstate()
+            random.seed(cfg["seed"])
+            try:
+                s.auto_search(perc=cfg["perc"]).expand_verified()
+            except speccheck.Timeout:
+                raise
+            except Exception:  # noqa: BLE001  (C01 / C19's matter)
+                pass
+            finally:
+                random.setstate(st)
+                specrun.quiet()
+        seen = set()
+        for cdb in [s.classdb] + created:
+            if id(cdb) in seen:
+                continue
+            seen.add(id(cdb))
+            n = len(cdb.empty_list)
+            out["classes"] += n
+            out["dbs"] = out.get("dbs", 0) + 1
+            for label in range(n):
+                c = cdb.get_class(label)
+                if cdb.get_label(c) != label:
+                    out["problems"].append(("label-not-stable", f"class {c!r} stored under {label} is now labelled {cdb.get_label(c)}"))
+                cached = cdb.empty_list[label]
+                if cached is not None:
+                    out["cached"] += 1
+                    if bool(cached) != bool(c.is_empty()):
+                        out["problems"].append(("cached-emptiness-ne-class", f"label {label} {c!r}: cached {cached}, the class says {c.is_empty()}"))
+            if len(cdb.empty_list) != n:
+                out["problems"].append(("lookup-grows-the-database", f"{n} -> {len(cdb.empty_list)}"))
     except speccheck.Timeout:
         out["timeout"] = True
     finally:
+        cdbmod.ClassDB.__init__ = orig_init
         signal.alarm(0)
     return out
 
